@@ -66,8 +66,9 @@ Section Rel.
   Lemma PRel_look lb ng0 bw sg eg c c' : PRel bw c c' ->
     PRel lb (NLookaround ng0 bw sg eg c) (NLookaround ng0 bw sg eg c').
   Proof.
-    intros Hc Hq Ha. cbn [qok] in Hq. cbn [OptMono.al] in Ha. destruct (Hc Hq Ha) as (R1 & Q1 & A1 & N1).
-    split; [apply ref_look; assumption|]. cbn [qok ng]. split; [exact Q1|]. split; [exact A1|exact N1].
+    intros Hc Hq Ha. cbn [qok] in Hq. apply andb_true_iff in Hq as [Hq Hg]. cbn [OptMono.al] in Ha.
+    destruct (Hc Hq Ha) as (R1 & Q1 & A1 & N1).
+    split; [apply ref_look; assumption|]. cbn [qok ng]. rewrite Q1, N1, Hg. split; [reflexivity|]. split; [exact A1|reflexivity].
   Qed.
 
   Lemma PRel_loop lb b b' mn mx g egs ege : PRel lb b b' ->
